@@ -175,6 +175,24 @@ def check_pair(case, ctx):
         ctx.violation('distance-is-minimum-edit-cost', f'{K}/distance/{"too-high" if got > want else "too-low"}',
                       f'levenshtein_distance({s!r},{t!r},{sub},{ins},{dele}) = {got}, true minimum = {want}')
 
+    # --- history: the caller keeps ONE list object for the target, replaces a symbol in place (same length) and asks again
+    if unit and len(t) >= 1 and not case.get('long'):
+        cand = [x for x in ([s[-1]] if len(s) else []) + [t[0]] if x != t[-1]]
+        if cand:
+            hs, ht = list(s), list(t)
+            sa.levenshtein_distance(hs, ht)
+            sa.levenshtein_distance(ht, hs)
+            ht[-1] = cand[0]
+            d2, d3 = sa.levenshtein_distance(hs, ht), sa.levenshtein_distance(ht, hs)
+            w2 = wagner_fischer(hs, ht, 1, 1, 1)
+            ctx.executed(4)
+            if float(d2) != w2 or float(d3) != w2:
+                ctx.violation('distance-is-minimum-edit-cost', f'{K}/distance/list-object-edited-in-place-between-calls',
+                              f'levenshtein_distance({s!r}, T) and (T, {s!r}) with T = {t!r}, then T[-1] = {cand[0]!r} in place and the same calls again: '
+                              f'{d2} / {d3}, true minimum {w2}')
+            elif w2 != want:
+                ctx.tag('list-edited-in-place-changes-the-distance')
+
     # --- alignment as pairs
     al = sa.levenshtein_alignment(list(s), list(t), sub, ins, dele)
     ctx.executed()
@@ -411,5 +429,5 @@ def describe(tier):
                         'for equal-length inputs either sequence may play the role of "the longer sequence"',
                         'sequences longer than the bound and costs above 4 are not explored'],
         'min_nontrivial': 10,
-        'required_tags': ['optimum-beats-diagonal', 'substring-beats-whole', 'aggregate-of-several', 'other-containers', 'sequences-longer-than-255', 'other-gap-symbol'],
+        'required_tags': ['list-edited-in-place-changes-the-distance', 'optimum-beats-diagonal', 'substring-beats-whole', 'aggregate-of-several', 'other-containers', 'sequences-longer-than-255', 'other-gap-symbol'],
     }
